@@ -299,12 +299,12 @@ def tu_requires(shape):
         r += ["len(gaf_line.path) >= 2 and len(gaf_line.path) % 2 == 0", "gaf_line.strand == '+'",
               "forall(lambda t: implies(0 <= t < len(gaf_line.path) and t % 2 == 0, isori(t)))",
               "forall(lambda t: implies(0 <= t < len(gaf_line.path) and t % 2 == 1, not isori(t) and tok(t) != '' and str_contains(tok(t), ':') and str_contains(tok(t), '-') and "
-              "len(split_colon(rstrip(tok(t)))) == 2 and len(split_dash(rstrip(split_colon(rstrip(tok(t)))[1]))) == 2))",
+              "len(rsplit_colon_1(rstrip(tok(t)))) == 2 and len(split_dash(rstrip(rsplit_colon_1(rstrip(tok(t)))[1]))) == 2))",
               # definitions of the ghost names
               "forall(lambda t: implies(0 <= t < len(gaf_line.path), BODY[t] == (t % 2 == 1)))",
-              "forall(lambda t: implies(0 <= t < len(gaf_line.path) and t % 2 == 1, CT[t] == split_colon(rstrip(gaf_line.path[t]))[0] and "
-              "QS[t] == int(split_dash(rstrip(split_colon(rstrip(gaf_line.path[t]))[1]))[0]) and "
-              "QE[t] == int(split_dash(rstrip(split_colon(rstrip(gaf_line.path[t]))[1]))[1]) and ORI[t] == gaf_line.path[t - 1]))",
+              "forall(lambda t: implies(0 <= t < len(gaf_line.path) and t % 2 == 1, CT[t] == rsplit_colon_1(rstrip(gaf_line.path[t]))[0] and "
+              "QS[t] == int(split_dash(rstrip(rsplit_colon_1(rstrip(gaf_line.path[t]))[1]))[0]) and "
+              "QE[t] == int(split_dash(rstrip(rsplit_colon_1(rstrip(gaf_line.path[t]))[1]))[1]) and ORI[t] == gaf_line.path[t - 1]))",
               "forall(lambda t, i: implies(0 <= t < len(gaf_line.path) and t % 2 == 1 and 0 <= i < len(reference[CT[t]]), "
               "SO[(t, i)] == int(reference[CT[t]][i].tags['SO'][1]) and EN[(t, i)] == int(reference[CT[t]][i].tags['SO'][1]) + int(reference[CT[t]][i].tags['LN'][1])))"]
     r += [
@@ -367,7 +367,7 @@ def register_to_unstable(reg):
             ghost=dict(dict(lo=IMAP, hi=IMAP, OUT=IMAP, PS=MapT(I2c, INT), TOT=IMAP, L12=LINE, r=INT, B=INT, UC0=LINE),
                        **({} if bare else dict(CT=MapT(INT, STR), QS=IMAP, QE=IMAP, ORI=MapT(INT, STR), BODY=MapT(INT, BOOL), SO=MapT(I2c, INT), EN=MapT(I2c, INT)))),
             types=dict(STR=STR, INT=INT),
-            ufuns=dict(SEG_UFUNS, split_colon=([STR], LINE), split_dash=([STR], LINE), rstrip=([STR], STR), str_contains=([STR, STR], BOOL)),
+            ufuns=dict(SEG_UFUNS, rsplit_colon_1=([STR], LINE), split_dash=([STR], LINE), rstrip=([STR], STR), str_contains=([STR, STR], BOOL)),
             spec_funcs=tu_macros(shape),
             call_ghost={"search_intervals": {"w": "lo[it1 - 1]"}},
             locals=dict(unstable_coord=LINE, orient=Opt(STR), nodes_tmp=ListT(STR), new_line=LINE, split_contig=BOOL),
